@@ -7,6 +7,7 @@ import (
 	"go/types"
 	"math"
 	"math/big"
+	"sort"
 	"strings"
 )
 
@@ -319,6 +320,33 @@ func c20Sinus(p *Prog, r *Report) {
 			return c.Kind == "cmp" && c.Op == token.EQL && c.P.MentionsRoot("GlobalVarsMain.GROUNDWATERFROM")
 		}
 		seen := map[string]bool{}
+		// mean and amplitude are defined by the arm of the configured groundwater source and by nothing else: a later
+		// adjustment of the mean (which also serves as the start level) moves the whole oscillation out of the interval
+		nSrc := 0
+		for _, e := range x.Events {
+			if e.Kind != "assign" || (e.Root != "GlobalVarsMain.GW" && e.Root != "GlobalVarsMain.AMPL") {
+				continue
+			}
+			src := e.HasGuard(gwGuard) || e.HasGuard(func(c *Cond) bool { return strings.Contains(c.Key(), "useGroundwaterFromSoilfile") && c.Kind != "not" })
+			if src {
+				nSrc++
+				continue
+			}
+			r.Ob("mean:no-other-store", p.Pos(e.Pos), false, fmt.Sprintf("%s is stored outside the arms of the configured groundwater source (%s): the mean or amplitude of the oscillation no longer comes from the two given levels alone", shortRoot(e.Root), clip(guardKeys(e.Guards), 120)))
+		}
+		r.Ob("mean:no-other-store", "-", nSrc >= 4, fmt.Sprintf("%d stores of mean/amplitude in the input routine, all inside the arm of a groundwater source", nSrc))
+		{
+			var others []string
+			for _, f := range []string{"GW", "AMPL"} {
+				for _, w := range p.Fields().Writers(FieldRef{"GlobalVarsMain", f}) {
+					if w.Key != "hermes.Input" && w.Key != "hermes.NewGlobalVarsMain" {
+						others = append(others, f+"@"+w.Key)
+					}
+				}
+			}
+			sort.Strings(others)
+			r.Ob("mean:writers", "-", len(others) == 0, fmt.Sprintf("writers of mean/amplitude besides the input routine: %v", others))
+		}
 		for _, e := range x.Events {
 			if e.Kind != "assign" || !e.HasGuard(gwGuard) {
 				continue
